@@ -19,6 +19,7 @@ processing but threads to do work.
 
 from io import BytesIO
 import re
+import sys
 from urllib import parse
 from urllib.parse import unquote_to_bytes
 
@@ -354,7 +355,13 @@ class HTTPRequestParser:
             if not ONLY_DIGIT_RE.match(cl.encode("latin-1")):
                 raise ParsingError("Content-Length is invalid")
 
-            cl = int(cl)
+            try:
+                cl = int(cl)
+            except ValueError:
+                # int() refuses to convert more digits than
+                # sys.get_int_max_str_digits() allows; a number that long
+                # exceeds any max_request_body_size
+                cl = sys.maxsize
             self.content_length = cl
 
             if cl > 0:
